@@ -52,15 +52,23 @@ def worker? : Sexp → Option Worker
   | .list [ts, b, f, p] => do some { tests := ← list? wtest? ts, boom := ← bool? b, faults := ← list? nat? f, polls := ← bool? p }
   | _ => none
 
+/-- the eighth component: realisation hints for the harness (atoms, ignored here) and, optionally, `(routeCodes (c0 c1 …))` -
+the route code of each worker of the stream flavour as a small number, repetitions allowed -/
+def routes? : Sexp → List Nat
+  | .list hs => (hs.findSome? fun
+      | .list [.atom "routeCodes", cs] => list? nat? cs
+      | _ => none).getD []
+  | _ => []
+
 def input? : Sexp → Option SInput
   | .list [fl, ws, mk, intr, mf, tb, sched] => do
       some { flavour := ← flavour? fl, workers := ← list? worker? ws, mkRaise := ← opt? nat? mk, intr := ← opt? nat? intr,
              mfaults := ← list? nat? mf, tb := ← nat? tb, sched := ← list? nat? sched }
   -- an eighth component carries *realisation hints* for the harness (route codes None / '', empty test id, a pass-through
-  -- wrap_result): they do not change what the model predicts
-  | .list [fl, ws, mk, intr, mf, tb, sched, _hints] => do
+  -- wrap_result): they do not change what the model predicts; `(routeCodes (…))` among them does: see `routes?`
+  | .list [fl, ws, mk, intr, mf, tb, sched, hints] => do
       some { flavour := ← flavour? fl, workers := ← list? worker? ws, mkRaise := ← opt? nat? mk, intr := ← opt? nat? intr,
-             mfaults := ← list? nat? mf, tb := ← nat? tb, sched := ← list? nat? sched }
+             mfaults := ← list? nat? mf, tb := ← nat? tb, sched := ← list? nat? sched, routes := routes? hints }
   | _ => none
 
 def sev? : Sexp → Option SEv
